@@ -36,6 +36,10 @@ def handlePx (args : List String) : String :=
   | ["pixsrgb", a] => match a.toNat? with
     | some a => row (fun c => pixIntoSrgb c a)
     | none => "bad-op"
+  | ["lightalpha", kind, r, g, b] =>
+    match r.toNat?, g.toNat?, b.toNat? with
+    | some r, some g, some b => toString (lightingPixel (kind == "specular") r g b).a
+    | _, _, _ => "bad-op"
   | "arith" :: k1 :: k2 :: k3 :: k4 :: rest =>
     match parseF32? k1, parseF32? k2, parseF32? k3, parseF32? k4, parsePx? rest with
     | some k1, some k2, some k3, some k4, some (p, rest) =>
